@@ -291,6 +291,12 @@ impl WorldA {
                 let c = &mut self.conns[i].st[d][ch];
                 if let Some(pos) = remaining.iter().position(|&ix| c.msgs[ix].bytes == whole) {
                     remaining.remove(pos);
+                    // C03: the receiver tells sliced unreliable messages apart by this id alone and keeps a partial one for
+                    // three seconds, so an id that comes back can stitch two messages together
+                    obs.count("oracle.C03.unreliable_sliced_id_fresh");
+                    if c.sliced_tx.contains_key(&sid) {
+                        obs.violate("C03", "unreliable-sliced-id-reused", "emit", format!("conn {} dir {} ch {} sliced id {} was used by an earlier message of this run", i, d, ch, sid));
+                    }
                     c.sliced_tx.insert(sid, SlicedTx { content: whole, deliveries: vec![0; g.len()] });
                 } else {
                     obs.violate("C14", "unreliable-emitted-not-queued", "sliced", format!("conn {} dir {} ch {} len {}", i, d, ch, whole.len()));
